@@ -52,7 +52,7 @@ fn event_map(run: &crate::build::BuildRun) -> Vec<(usize, bool, usize)> {
 // ------------------------------------------------------------------- C07
 
 pub fn c07_sizes(cfg: &Cfg) -> (u64, u64) {
-    (scaled(cfg, 300, 5_000), scaled(cfg, 200_000, 50_000_000))
+    (scaled(cfg, 300, 5_000), scaled(cfg, 200_000, 6_000_000))
 }
 
 pub fn c07(cfg: &Cfg, idx: u64, st: &mut Stats) {
@@ -122,7 +122,7 @@ pub fn c07(cfg: &Cfg, idx: u64, st: &mut Stats) {
 
 pub fn c01_sizes(cfg: &Cfg) -> (u64, u64) {
     // (big runs, random runs)
-    (scaled(cfg, 3, 6), scaled(cfg, 150_000, 20_000_000))
+    (scaled(cfg, 3, 6), scaled(cfg, 150_000, 10_000_000))
 }
 
 pub fn c01(cfg: &Cfg, idx: u64, st: &mut Stats) {
@@ -181,7 +181,7 @@ pub fn c06_histories(maxlen: u32) -> u64 {
 
 pub fn c06_sizes(cfg: &Cfg) -> (u64, u64) {
     let ex = C06_VARIANTS * c06_histories(c06_exhaustive_len(cfg));
-    (ex, scaled(cfg, 100_000, 10_000_000))
+    (ex, scaled(cfg, 100_000, 5_000_000))
 }
 
 fn c06_exhaustive_case(mut h: u64, variant: u64, maxlen: u32) -> BuildCase {
